@@ -1,1025 +1,111 @@
-import RbModel.CoreVm
-import Thm.C01Len
+import Thm.C01SimBase
+import Thm.C01SimIf
+import Thm.C01SimDo
+import Thm.C01SimSelect
+import Thm.C01SimFor
+import Thm.C01SimRead
+import Thm.C01SimProg
 /-!
-C01, simulation part: the code the generator model `Core.compile*` emits, run on the VM model
-`CoreVm.step`, computes what the reference semantics `Ref` prescribes.
+C01, simulation part — the statement theorem and the whole-program theorem.
 
-Both models are tied to the real code on every run (harness/src/bin/c01.rs): `Core.compile p` is
-compared instruction-for-instruction with the real `generate_instructions` output of every core
-program, and `CoreVm.run (Core.compile p)` with the real interpreter's output and outcome.
-
-Proof style: `CodeAt code off frag` places a fragment inside a larger instruction list; `Steps`
-is the reflexive-transitive closure of successful VM steps; one lemma per instruction, then one
-theorem per construct by induction on the syntax.
+`Thm/C01SimBase.lean` holds the infrastructure and the cases for sequencing, DIM, assignment, PRINT, WHILE and END;
+`Thm/C01Sim{If,Do,Select,For,Read}.lean` the cases for IF/ELSEIF/ELSE, the four DO forms, SELECT CASE, FOR with and
+without STEP, and READ (with type preservation of the reference semantics); `Thm/C01SimProg.lean` the lift to whole
+programs (DATA hoisting, the DATA phase, the final `Halt`).  Here they are put together.
 -/
 namespace RbThm.C01Sim
 open RbModel RbModel.Num RbModel.Ast RbModel.Src RbModel.Core RbModel.CoreVm RbModel.Ref
 open RbThm.C01Len
 
-/-! ### code placement -/
+theorem stmtIH_zero (code : Code) : StmtIH code 0 := by
+  intro stmt sfx off σ s sl _ _ _ _ _
+  simp [exec, StmtSpec]
 
-/-- the fragment `frag` sits in `code` at address `off` -/
-def CodeAt (code : Code) (off : Nat) (frag : Code) : Prop :=
-  ∀ i, i < frag.length → code[off + i]? = frag[i]?
+/-- one more unit of fuel: every construct of the core language, given the theorem at all smaller amounts -/
+theorem stmtIH_succ (code : Code) (fuel : Nat) (ih : StmtIHle code fuel) : StmtIH code (fuel + 1) := by
+  intro stmt sfx off σ s sl hc hpc hr hw hty
+  have ih0 : StmtIH code fuel := ih fuel (Nat.le_refl _)
+  cases stmt with
+  | skip =>
+    simp only [desugar, exec, StmtSpec, sizeStmt]
+    exact ⟨σ, Steps.refl σ, by simpa using hpc, hr, SameStacks.refl σ, trivial⟩
+  | comment =>
+    simp only [desugar, exec, StmtSpec, sizeStmt]
+    exact ⟨σ, Steps.refl σ, by simpa using hpc, hr, SameStacks.refl σ, trivial⟩
+  | seq a b => exact case_seq code fuel ih0 exec_typed a b sfx off σ s hc hpc hr sl hw hty
+  | dim x t p => exact case_dim code x t p sfx off σ s fuel hc hpc hr
+  | assign x t e p => exact case_assign code x t e p sfx off σ s fuel hc hpc hr sl hw hty
+  | print items p => exact case_print code items p sfx off σ s fuel hc hpc hr sl hw hty
+  | «while» c body p => exact case_while code fuel ih0 exec_typed c body p sfx off σ s hc hpc hr sl hw hty
+  | end_ p => exact case_end code p sfx off σ s fuel hc hpc hr
+  | data _ _ => exact hw.elim
+  | read vars p => exact case_read code fuel vars p sfx off σ s hc hpc hr sl hw hty
+  | ifBlock c thn elifs hasElse els p =>
+    exact case_if code fuel ih exec_typed c thn elifs hasElse els p sfx off σ s hc hpc hr sl hw hty
+  | select e cases hasElse els p =>
+    exact case_select code fuel ih exec_typed e cases hasElse els p sfx off σ s hc hpc hr sl hw hty
+  | forLoop x t lo hi step body p =>
+    exact case_for code fuel ih exec_typed x t lo hi step body p sfx off σ s hc hpc hr sl hw hty
+  | doLoop c top u body p => exact case_do code fuel ih exec_typed c top u body p sfx off σ s hc hpc hr sl hw hty
 
-theorem CodeAt.nil (code : Code) (off : Nat) : CodeAt code off [] := by
-  intro i hi; simp at hi
-
-theorem CodeAt.append_left {code : Code} {off : Nat} {a b : Code} (h : CodeAt code off (a ++ b)) :
-    CodeAt code off a := by
-  intro i hi
-  have := h i (by simp; omega)
-  rw [this, List.getElem?_append_left hi]
-
-theorem CodeAt.append_right {code : Code} {off : Nat} {a b : Code} (h : CodeAt code off (a ++ b)) :
-    CodeAt code (off + a.length) b := by
-  intro i hi
-  have := h (a.length + i) (by simp; omega)
-  rw [Nat.add_assoc, this, List.getElem?_append_right (by omega)]
-  congr 1; omega
-
-theorem CodeAt.head {code : Code} {off : Nat} {x : CInstr × Pos} {rest : Code}
-    (h : CodeAt code off (x :: rest)) : code[off]? = some x := by
-  have := h 0 (by simp)
-  simpa using this
-
-theorem CodeAt.tail {code : Code} {off : Nat} {x : CInstr × Pos} {rest : Code}
-    (h : CodeAt code off (x :: rest)) : CodeAt code (off + 1) rest := by
-  have := CodeAt.append_right (a := [x]) (b := rest) (by simpa using h)
-  simpa using this
-
-/-! ### execution -/
-
-/-- zero or more successful steps -/
-inductive Steps (code : Code) : Vm → Vm → Prop
-  | refl (σ : Vm) : Steps code σ σ
-  | cons {σ τ υ : Vm} : CoreVm.step code σ = .next τ → Steps code τ υ → Steps code σ υ
-
-theorem Steps.trans {code : Code} {a b c : Vm} (h₁ : Steps code a b) (h₂ : Steps code b c) : Steps code a c := by
-  induction h₁ with
-  | refl => exact h₂
-  | cons hs _ ih => exact Steps.cons hs (ih h₂)
-
-theorem Steps.one {code : Code} {σ τ : Vm} (h : CoreVm.step code σ = .next τ) : Steps code σ τ :=
-  Steps.cons h (Steps.refl τ)
-
-/-- the run reaches a state whose next step raises the BASIC error `(c, p)`, with the variables and
-the output as they are at that point -/
-def ErrsWith (code : Code) (σ : Vm) (c : Nat) (p : Pos) (env : List Val) (out : Print.WritePrinter) : Prop :=
-  ∃ τ υ, Steps code σ τ ∧ CoreVm.step code τ = .error c p υ ∧ υ.env = env ∧ υ.out = out
-
-theorem ErrsWith.of_steps {code : Code} {σ τ : Vm} {c : Nat} {p : Pos} {env out}
-    (h₁ : Steps code σ τ) (h₂ : ErrsWith code τ c p env out) : ErrsWith code σ c p env out := by
-  obtain ⟨a, b, h, hs, he, ho⟩ := h₂
-  exact ⟨a, b, h₁.trans h, hs, he, ho⟩
-
-/-! ### expressions -/
-
-/-- the state after an expression has been evaluated into A: only A (and scratch register B) and the
-program counter differ -/
-def afterExpr (σ : Vm) (pc : Nat) (v b : Val) : Vm :=
-  { σ with pc := pc, regs := { σ.regs with a := v, b := b } }
-
-/-- evaluating an instruction that writes A from a `Res Val` -/
-theorem resA_ok {σ : Vm} {p : Pos} {r : Res Val} {v : Val} (h : r = .ok v) :
-    resA σ p r = .next (advance (setA σ v)) := by subst h; rfl
-
-theorem resA_err {σ : Vm} {p : Pos} {r : Res Val} {e : Err} (h : r = .err e) :
-    resA σ p r = .error (codeOf e) p σ := by subst h; rfl
-
-/-- `binStep` of the reference semantics is the VM's operator instruction followed, for `/`, by the
-`Cast` the generator emits -/
-theorem binStep_eq (op : Op) (t : Ty) (a b : Val) :
-    binStep op t a b =
-      (if op = .divide then (binInstr op a b).bind (fun q => cast q t) else binInstr op a b) := by
-  cases op <;> simp [binStep, binInstr]
-
-/-- every variable slot mentioned by the expression exists -/
-def SlotsBelow (n : Nat) : Ast.Expr → Prop
-  | .lit _ _ => True
-  | .var x _ _ => x < n
-  | .un _ e _ => SlotsBelow n e
-  | .bin _ l r _ _ => SlotsBelow n l ∧ SlotsBelow n r
-  | .paren e _ => SlotsBelow n e
-
-theorem getD_of_lt {env : List Val} {x : Nat} (d : Val) (h : x < env.length) :
-    env.getD x d = env[x] ∧ env[x]? = some env[x] := by
-  constructor
-  · simp [List.getD, List.getElem?_eq_getElem h]
-  · exact List.getElem?_eq_getElem h
-
-/-- what an expression's code does, as a predicate on the start state -/
-def ExprSpec (code : Code) (e : Ast.Expr) (off : Nat) (σ : Vm) : Prop :=
-  match eval σ.env e with
-  | .ok v => ∃ b, Steps code σ (afterExpr σ (off + (compileExpr e).length) v b)
-  | .err c p => ErrsWith code σ c p σ.env σ.out
-  | .inexact => True
-
-theorem expr_lit (code : Code) (v : Val) (p : Pos) (off : Nat) (σ : Vm)
-    (hc : CodeAt code off (compileExpr (.lit v p))) (hpc : σ.pc = off) :
-    ExprSpec code (.lit v p) off σ := by
-  simp only [ExprSpec, eval, compileExpr, List.length_singleton]
-  refine ⟨σ.regs.b, Steps.one ?_⟩
-  have h0 : code[σ.pc]? = some (CInstr.loadA v, p) := by rw [hpc]; exact hc.head
-  simp only [CoreVm.step, h0]
-  subst hpc
-  rfl
-
-theorem expr_var (code : Code) (x : Nat) (t : Ty) (p : Pos) (off : Nat) (σ : Vm)
-    (hc : CodeAt code off (compileExpr (.var x t p))) (hpc : σ.pc = off) (hx : x < σ.env.length) :
-    ExprSpec code (.var x t p) off σ := by
-  obtain ⟨hg, hs⟩ := getD_of_lt (Ref.zeroOf t) hx
-  simp only [ExprSpec, eval, compileExpr, hg, List.length_cons, List.length_nil]
-  refine ⟨σ.regs.b, ?_⟩
-  subst hpc
-  have h0 : code[σ.pc]? = some (CInstr.varPath x, p) := hc.head
-  have h1 : code[σ.pc + 1]? = some (CInstr.copyVarPathToA, p) := hc.tail.head
-  have h2 : code[σ.pc + 1 + 1]? = some (CInstr.popVarPath, p) := hc.tail.tail.head
-  refine Steps.cons (τ := advance { σ with paths := x :: σ.paths }) ?_ ?_
-  · simp only [CoreVm.step, h0]
-  refine Steps.cons (τ := advance (setA (advance { σ with paths := x :: σ.paths }) σ.env[x])) ?_ ?_
-  · simp only [CoreVm.step, advance, h1, hs]
-  refine Steps.one ?_
-  simp only [CoreVm.step, advance, setA, h2]
-  rfl
-
-/-- one instruction that rewrites A by a `Res`-valued operation, after an expression -/
-theorem after_resA (code : Code) (σ : Vm) (pc : Nat) (v b : Val) (i : CInstr) (p : Pos) (r : Res Val)
-    (hi : code[pc]? = some (i, p))
-    (hstep : ∀ τ : Vm, τ.pc = pc → τ.regs.a = v → τ.regs.b = b → CoreVm.step code τ = resA τ p r) :
-    match lift p r with
-    | .ok w => Steps code (afterExpr σ pc v b) (afterExpr σ (pc + 1) w b)
-    | .err c q => ErrsWith code (afterExpr σ pc v b) c q σ.env σ.out
-    | .inexact => True := by
-  have hs := hstep (afterExpr σ pc v b) rfl rfl rfl
-  cases r with
-  | ok w => exact Steps.one (by rw [hs]; rfl)
-  | err e => exact ⟨afterExpr σ pc v b, afterExpr σ pc v b, Steps.refl _, (by rw [hs]; rfl), rfl, rfl⟩
-  | inexact => trivial
-
-theorem afterExpr_afterExpr (σ : Vm) (pc pc' : Nat) (v b v' b' : Val) :
-    afterExpr (afterExpr σ pc v b) pc' v' b' = afterExpr σ pc' v' b' := rfl
-
-theorem expr_un (code : Code) (op : UnOp) (e : Ast.Expr) (p : Pos) (off : Nat) (σ : Vm)
-    (ih : CodeAt code off (compileExpr e) → ExprSpec code e off σ)
-    (hc : CodeAt code off (compileExpr (.un op e p))) :
-    ExprSpec code (.un op e p) off σ := by
-  cases op with
-  | neg =>
-    simp only [compileExpr] at hc
-    have ihe := ih hc.append_left
-    have hi : code[off + (compileExpr e).length]? = some (CInstr.negateA, p) := hc.append_right.head
-    simp only [ExprSpec, eval, compileExpr, List.length_append, List.length_singleton] at ihe ⊢
-    cases he : eval σ.env e with
-    | ok v =>
-      simp only [he] at ihe
-      obtain ⟨b, hsteps⟩ := ihe
-      have := after_resA code σ (off + (compileExpr e).length) v b _ p (negate v) hi
-        (by intro τ h1 h2 _; simp only [CoreVm.step, h1, hi, h2])
-      simp only [ERes.bind]
-      cases hn : negate v with
-      | ok w =>
-        simp only [hn, lift] at this ⊢
-        exact ⟨b, hsteps.trans (by simpa [Nat.add_assoc] using this)⟩
-      | err er =>
-        simp only [hn, lift] at this ⊢
-        exact ErrsWith.of_steps hsteps this
-      | inexact => simp [lift]
-    | err c q => simpa [he, ERes.bind] using ihe
-    | inexact => simp [ERes.bind]
-  | not =>
-    simp only [compileExpr] at hc
-    have ihe := ih hc.append_left
-    have hi : code[off + (compileExpr e).length]? = some (CInstr.notA, p) := hc.append_right.head
-    simp only [ExprSpec, eval, compileExpr, List.length_append, List.length_singleton] at ihe ⊢
-    cases he : eval σ.env e with
-    | ok v =>
-      simp only [he] at ihe
-      obtain ⟨b, hsteps⟩ := ihe
-      have := after_resA code σ (off + (compileExpr e).length) v b _ p (unaryNot v) hi
-        (by intro τ h1 h2 _; simp only [CoreVm.step, h1, hi, h2])
-      simp only [ERes.bind]
-      cases hn : unaryNot v with
-      | ok w =>
-        simp only [hn, lift] at this ⊢
-        exact ⟨b, hsteps.trans (by simpa [Nat.add_assoc] using this)⟩
-      | err er =>
-        simp only [hn, lift] at this ⊢
-        exact ErrsWith.of_steps hsteps this
-      | inexact => simp [lift]
-    | err c q => simpa [he, ERes.bind] using ihe
-    | inexact => simp [ERes.bind]
-
-/-- the operator tail of a binary expression: `CopyAToB; PopValueStackIntoA; <op>; [Cast t]` -/
-theorem bin_tail (code : Code) (op : Op) (t : Ty) (p : Pos) (q : Nat) (τ : Vm) (a bv : Val) (vs : List Val)
-    (hc : CodeAt code q ([(CInstr.copyAToB, p), (CInstr.popA, p), (CInstr.bin op, p)] ++
-      (if op = .divide then [(CInstr.cast t, p)] else [])))
-    (hpc : τ.pc = q) (ha : τ.regs.a = bv) (hv : τ.vals = a :: vs) :
-    match lift p (binStep op t a bv) with
-    | .ok w => Steps code τ { τ with pc := q + 3 + (if op = .divide then 1 else 0),
-                                      regs := { τ.regs with a := w, b := bv }, vals := vs }
-    | .err c r => ErrsWith code τ c r τ.env τ.out
-    | .inexact => True := by
-  have h0 : code[τ.pc]? = some (CInstr.copyAToB, p) := by rw [hpc]; exact hc.append_left.head
-  have h1 : code[τ.pc + 1]? = some (CInstr.popA, p) := by rw [hpc]; exact hc.append_left.tail.head
-  have h2 : code[τ.pc + 1 + 1]? = some (CInstr.bin op, p) := by rw [hpc]; exact hc.append_left.tail.tail.head
-  let τ1 : Vm := advance { τ with regs := { τ.regs with b := τ.regs.a } }
-  let τ2 : Vm := advance { setA τ1 a with vals := vs }
-  have s1 : CoreVm.step code τ = .next τ1 := by simp only [CoreVm.step, h0]; rfl
-  have s2 : CoreVm.step code τ1 = .next τ2 := by
-    simp only [CoreVm.step, τ1, advance, h1, hv]; rfl
-  have s3 : CoreVm.step code τ2 = resA τ2 p (binInstr op a bv) := by
-    simp only [CoreVm.step, τ2, τ1, advance, setA, h2, ha]
-  have st : Steps code τ τ2 := Steps.cons s1 (Steps.one s2)
-  rw [binStep_eq]
-  by_cases hd : op = .divide
-  · simp only [hd, if_true] at hc ⊢
-    have h3 : code[τ.pc + 1 + 1 + 1]? = some (CInstr.cast t, p) := by
-      rw [hpc]; exact hc.append_right.head
-    subst hd
-    cases hb : binInstr .divide a bv with
-    | ok qv =>
-      let τ3 : Vm := advance (setA τ2 qv)
-      have s3' : CoreVm.step code τ2 = .next τ3 := by rw [s3, hb]; rfl
-      have s4 : CoreVm.step code τ3 = resA τ3 p (cast qv t) := by
-        simp only [CoreVm.step, τ3, τ2, τ1, advance, setA, h3]
-      simp only [Res.bind]
-      cases hcst : cast qv t with
-      | ok w =>
-        simp only [lift]
-        refine st.trans (Steps.cons s3' (Steps.one ?_))
-        rw [s4, hcst]
-        simp only [resA, τ3, τ2, τ1, advance, setA, ha, hpc]
-      | err e =>
-        simp only [lift]
-        refine ⟨τ3, τ3, st.trans (Steps.one s3'), ?_, rfl, rfl⟩
-        rw [s4, hcst]; rfl
-      | inexact => simp [lift]
-    | err e =>
-      simp only [Res.bind, lift]
-      refine ⟨τ2, τ2, st, ?_, rfl, rfl⟩
-      rw [s3, hb]; rfl
-    | inexact => simp [Res.bind, lift]
-  · simp only [hd, if_false]
-    cases hb : binInstr op a bv with
-    | ok w =>
-      simp only [lift]
-      refine st.trans (Steps.one ?_)
-      rw [s3, hb]
-      simp only [resA, τ2, τ1, advance, setA, ha, hpc, Nat.add_zero]
-    | err e =>
-      simp only [lift]
-      refine ⟨τ2, τ2, st, ?_, rfl, rfl⟩
-      rw [s3, hb]; rfl
-    | inexact => simp [lift]
-
-/-- **`compileExpr_correct`**: running the code of `e` from any state whose program counter is at its
-first instruction puts `eval e` into A and leaves the value stack, the var-path stack, the register
-stack, registers C and D, the variables and the output as they were; if `eval e` is an error the run
-stops with that error code at that position, with variables and output untouched. -/
-theorem compileExpr_correct (code : Code) (e : Ast.Expr) :
-    ∀ (off : Nat) (σ : Vm), CodeAt code off (compileExpr e) → σ.pc = off → SlotsBelow σ.env.length e →
-      ExprSpec code e off σ := by
-  induction e with
-  | lit v p => intro off σ hc hpc _; exact expr_lit code v p off σ hc hpc
-  | var x t p => intro off σ hc hpc hs; exact expr_var code x t p off σ hc hpc hs
-  | un op e p ih =>
-    intro off σ hc hpc hs
-    exact expr_un code op e p off σ (fun h => ih off σ h hpc hs) hc
-  | paren e p ih =>
-    intro off σ hc hpc hs
-    have := ih off σ (by simpa [compileExpr] using hc) hpc hs
-    simpa [ExprSpec, eval, compileExpr] using this
-  | bin op l r t p ihl ihr =>
-    intro off σ hc hpc hs
-    simp only [compileExpr] at hc
-    obtain ⟨hsl, hsr⟩ := hs
-    -- pieces of the code
-    have hcl : CodeAt code off (compileExpr l) := hc.append_left.append_left.append_left.append_left
-    have hpush : code[off + (compileExpr l).length]? = some (CInstr.pushA, p) :=
-      hc.append_left.append_left.append_left.append_right.head
-    have hcr : CodeAt code (off + (compileExpr l).length + 1) (compileExpr r) := by
-      have := hc.append_left.append_left.append_right
-      simpa [Nat.add_assoc] using this
-    have hct : CodeAt code (off + (compileExpr l).length + 1 + (compileExpr r).length)
-        ([(CInstr.copyAToB, p), (CInstr.popA, p), (CInstr.bin op, p)] ++
-          (if op = .divide then [(CInstr.cast t, p)] else [])) := by
-      have h1 := hc.append_left.append_right
-      have h2 := hc.append_right
-      intro i hi
-      by_cases h3 : i < 3
-      · have := h1 i (by simpa using h3)
-        simp only [List.length_append, List.length_singleton] at this
-        rw [List.getElem?_append_left (by simpa using h3)]
-        rw [← this]; congr 1; omega
-      · have := h2 (i - 3) (by simp at hi ⊢; omega)
-        simp only [List.length_append, List.length_cons, List.length_nil] at this
-        rw [List.getElem?_append_right (by simp; omega)]
-        simp only [List.length_cons, List.length_nil]
-        rw [← this]; congr 1; omega
-    have ihl' := ihl off σ hcl hpc hsl
-    simp only [ExprSpec, eval, compileExpr, List.length_append, List.length_cons, List.length_nil] at ihl' ⊢
-    cases hl : eval σ.env l with
-    | err c q => simpa [hl, ERes.bind] using ihl'
-    | inexact => simp [ERes.bind]
-    | ok a =>
-      simp only [hl] at ihl'
-      obtain ⟨b1, st1⟩ := ihl'
-      -- push the left value
-      let σ2 : Vm := { afterExpr σ (off + (compileExpr l).length) a b1 with
-        pc := off + (compileExpr l).length + 1, vals := a :: σ.vals }
-      have spush : CoreVm.step code (afterExpr σ (off + (compileExpr l).length) a b1) = .next σ2 := by
-        simp only [CoreVm.step, afterExpr, hpush]; rfl
-      have ihr' := ihr (off + (compileExpr l).length + 1) σ2 hcr rfl hsr
-      simp only [ExprSpec] at ihr'
-      have henv : σ2.env = σ.env := rfl
-      rw [henv] at ihr'
-      cases hr : eval σ.env r with
-      | err c q =>
-        simp only [hr] at ihr'
-        simp only [ERes.bind]
-        exact ErrsWith.of_steps (st1.trans (Steps.one spush)) ihr'
-      | inexact => simp only [ERes.bind]
-      | ok bv =>
-        simp only [hr] at ihr'
-        simp only [ERes.bind]
-        obtain ⟨b2, st2⟩ := ihr'
-        let σ3 : Vm := afterExpr σ2 (off + (compileExpr l).length + 1 + (compileExpr r).length) bv b2
-        have tail := bin_tail code op t p _ σ3 a bv σ.vals hct rfl rfl rfl
-        have pre : Steps code σ σ3 := (st1.trans (Steps.one spush)).trans st2
-        cases hb : lift p (binStep op t a bv) with
-        | ok w =>
-          simp only [hb] at tail
-          refine ⟨bv, pre.trans ?_⟩
-          have hlen : (if op = Op.divide then [(CInstr.cast t, p)] else []).length =
-              (if op = Op.divide then 1 else 0) := by split <;> rfl
-          have hpcEq : off + (compileExpr l).length + 1 + (compileExpr r).length + 3 +
-                (if op = Op.divide then 1 else 0) =
-              off + ((compileExpr l).length + (0 + 1) + (compileExpr r).length + (0 + 1 + 1 + 1) +
-                (if op = Op.divide then [(CInstr.cast t, p)] else []).length) := by
-            rw [hlen]; omega
-          rw [← hpcEq]
-          exact tail
-        | err c q =>
-          simp only [hb] at tail
-          exact ErrsWith.of_steps pre tail
-        | inexact => trivial
-
-/-! ### statements -/
-
-/-- the VM state represents the state of the reference semantics -/
-structure Rel (s : St) (σ : Vm) : Prop where
-  env : σ.env = s.env
-  out : σ.out = s.out
-  skip : σ.skipNewline = false
-
-/-- the value stack, the var-path stack and the register stack are as they were -/
-def SameStacks (σ τ : Vm) : Prop :=
-  τ.regStack = σ.regStack ∧ τ.vals = σ.vals ∧ τ.paths = σ.paths
-
-theorem SameStacks.refl (σ : Vm) : SameStacks σ σ := ⟨rfl, rfl, rfl⟩
-
-theorem SameStacks.trans {a b c : Vm} (h₁ : SameStacks a b) (h₂ : SameStacks b c) : SameStacks a c :=
-  ⟨h₂.1.trans h₁.1, h₂.2.1.trans h₁.2.1, h₂.2.2.trans h₁.2.2⟩
-
-/-- what the code of a statement does, given what the reference semantics says the statement does -/
-def StmtSpec (code : Code) (n : Nat) (off : Nat) (σ : Vm) (s : St) : St × Outcome → Prop
-  | (s', .normal) => ∃ τ, Steps code σ τ ∧ τ.pc = off + n ∧ Rel s' τ ∧ SameStacks σ τ ∧
-      s'.env.length = s.env.length
-  | (s', .halted) => ∃ τ υ, Steps code σ τ ∧ CoreVm.step code τ = .halt υ ∧ Rel s' υ
-  | (s', .error c p) => ErrsWith code σ c p s'.env s'.out
-  | (_, .inexact) => True
-  | (_, .outOfFuel) => True
-
-theorem zeroOf_eq (t : Ty) : Src.zeroOf t = Ref.zeroOf t := by cases t <;> rfl
-
-/-- evaluating an expression and converting it to the type of the receiving location:
-`generate_expression_instructions_casting` -/
-theorem exprTo_correct (code : Code) (e : Ast.Expr) (t : Ty) (off : Nat) (σ : Vm)
-    (hc : CodeAt code off (compileExprTo e t)) (hpc : σ.pc = off) (hs : SlotsBelow σ.env.length e) :
-    match evalTo σ.env e t with
-    | .ok v => ∃ b, Steps code σ (afterExpr σ (off + (compileExprTo e t).length) v b)
-    | .err c p => ErrsWith code σ c p σ.env σ.out
-    | .inexact => True := by
-  have he := compileExpr_correct code e off σ hc.append_left hpc hs
-  simp only [ExprSpec] at he
-  simp only [evalTo, compileExprTo, List.length_append]
-  cases hev : eval σ.env e with
-  | err c q => simpa [hev, ERes.bind] using he
-  | inexact => simp [ERes.bind]
-  | ok v =>
-    simp only [hev] at he
-    obtain ⟨b, st⟩ := he
-    simp only [ERes.bind, storeCast]
-    by_cases hty : e.ty = t
-    · simp only [hty, if_true, lift, List.length_nil, Nat.add_zero]
-      exact ⟨b, st⟩
-    · simp only [hty, if_false, List.length_singleton]
-      have hi : code[off + (compileExpr e).length]? = some (CInstr.cast t, e.pos) := by
-        have := hc.append_right
-        simp only [compileExprTo, hty, if_false] at this
-        exact this.head
-      have := after_resA code σ (off + (compileExpr e).length) v b _ e.pos (cast v t) hi
-        (by intro τ h1 h2 _; simp only [CoreVm.step, h1, hi, h2])
-      cases hcst : cast v t with
-      | ok w =>
-        simp only [hcst, lift] at this ⊢
-        exact ⟨b, st.trans (by simpa [Nat.add_assoc] using this)⟩
-      | err er =>
-        simp only [hcst, lift] at this ⊢
-        exact ErrsWith.of_steps st this
-      | inexact => simp [lift]
-
-/-- `VarPathName x; CopyAToVarPath`: store A into variable `x` -/
-theorem store_steps (code : Code) (x : Nat) (p : Pos) (off : Nat) (τ : Vm)
-    (hc : CodeAt code off (storeVar x p)) (hpc : τ.pc = off) :
-    Steps code τ { τ with pc := off + 2, env := τ.env.set x τ.regs.a } := by
-  subst hpc
-  have h0 : code[τ.pc]? = some (CInstr.varPath x, p) := hc.head
-  have h1 : code[τ.pc + 1]? = some (CInstr.copyAToVarPath, p) := hc.tail.head
-  refine Steps.cons (τ := advance { τ with paths := x :: τ.paths }) ?_ (Steps.one ?_)
-  · simp only [CoreVm.step, h0]
-  · simp only [CoreVm.step, advance, h1]
-
-/-- the condition evaluates to a number whenever it evaluates (what the checker guarantees: conditions are
-numeric; see `numericCond_of_rel` for the usual case of a comparison) -/
-def NumericCond (c : Ast.Expr) : Prop :=
-  ∀ env v, eval env c = .ok v → (truthy v).isSome
-
-/-- `<cond>; JumpIfFalse target` -/
-theorem cond_correct (code : Code) (c : Ast.Expr) (target : Nat) (p : Pos) (off : Nat) (σ : Vm)
-    (hc : CodeAt code off (compileExpr c ++ [(CInstr.jumpIfFalse target, p)])) (hpc : σ.pc = off)
-    (hs : SlotsBelow σ.env.length c) (hn : NumericCond c) :
-    match evalCond σ.env c with
-    | .ok true => ∃ v b, Steps code σ (afterExpr σ (off + (compileExpr c).length + 1) v b)
-    | .ok false => ∃ v b, Steps code σ (afterExpr σ target v b)
-    | .error (.error cd q) => ErrsWith code σ cd q σ.env σ.out
-    | .error _ => True := by
-  have he := compileExpr_correct code c off σ hc.append_left hpc hs
-  have hj : code[off + (compileExpr c).length]? = some (CInstr.jumpIfFalse target, p) := hc.append_right.head
-  simp only [ExprSpec] at he
-  simp only [evalCond]
-  cases hev : eval σ.env c with
-  | err cd q => simpa [hev] using he
-  | inexact => simp
-  | ok v =>
-    simp only [hev] at he
-    obtain ⟨b, st⟩ := he
-    have hsome := hn σ.env v hev
-    cases ht : truthy v with
-    | none => simp [ht] at hsome
-    | some tv =>
-      cases tv with
-      | true =>
-        simp only [ht]
-        refine ⟨v, b, st.trans (Steps.one ?_)⟩
-        simp only [CoreVm.step, afterExpr, hj, ht]
-        rfl
-      | false =>
-        simp only [ht]
-        refine ⟨v, b, st.trans (Steps.one ?_)⟩
-        simp only [CoreVm.step, afterExpr, hj, ht]
-
-/-! #### PRINT -/
-
-def isSep : PrintItem → Bool
-  | .expr _ => false
-  | _ => true
-
-/-- `should_skip_new_line` after the items of a PRINT statement, starting from `b` -/
-def flagAfter (b : Bool) : List PrintItem → Bool
-  | [] => b
-  | it :: rest => flagAfter (isSep it) rest
-
-theorem flagAfter_eq (items : List PrintItem) (b : Bool) :
-    flagAfter b items = if items = [] then b else endsInSeparator items := by
-  induction items generalizing b with
-  | nil => rfl
-  | cons it rest ih =>
-    simp only [flagAfter, ih, reduceCtorEq, if_false]
-    cases rest with
-    | nil => cases it <;> rfl
-    | cons y r => cases it <;> simp [endsInSeparator]
-
-def ItemsSlots (n : Nat) : List PrintItem → Prop
-  | [] => True
-  | .expr e :: rest => SlotsBelow n e ∧ ItemsSlots n rest
-  | _ :: rest => ItemsSlots n rest
-
-/-- the items of a PRINT statement: the device receives what `printItems` prescribes, in order -/
-theorem items_correct (code : Code) (p : Pos) :
-    ∀ (items : List PrintItem) (off : Nat) (σ : Vm) (s : St),
-      CodeAt code off (compileItems p items) → σ.pc = off → σ.env = s.env → σ.out = s.out →
-      ItemsSlots s.env.length items →
-      match printItems s items with
-      | (s', .normal) => ∃ τ, Steps code σ τ ∧ τ.pc = off + sizeItems items ∧ τ.env = s'.env ∧ τ.out = s'.out ∧
-          s'.env = s.env ∧ τ.skipNewline = flagAfter σ.skipNewline items ∧ SameStacks σ τ
-      | (s', .error c q) => ErrsWith code σ c q s'.env s'.out
-      | _ => True := by
-  intro items
-  induction items with
-  | nil =>
-    intro off σ s _ hpc he ho _
-    simp only [printItems]
-    exact ⟨σ, Steps.refl σ, by simp [sizeItems, hpc], he, ho, trivial, rfl, SameStacks.refl σ⟩
-  | cons it rest ih =>
-    intro off σ s hc hpc he ho hsl
-    cases it with
-    | comma =>
-      simp only [compileItems, compileItem] at hc
-      have h0 : code[σ.pc]? = some (CInstr.printComma, p) := by rw [hpc]; exact hc.append_left.head
-      let σ1 : Vm := advance { σ with out := σ.out.moveToNextPrintZone, skipNewline := true }
-      have s1 : CoreVm.step code σ = .next σ1 := by simp only [CoreVm.step, h0]; rfl
-      have ih' := ih (off + 1) σ1 { s with out := s.out.moveToNextPrintZone } hc.append_right
-        (by simp [σ1, advance, hpc]) he (by simp [σ1, advance, ho]) hsl
-      simp only [printItems, sizeItems, flagAfter, isSep]
-      generalize hr : printItems { s with out := s.out.moveToNextPrintZone } rest = r at ih' ⊢
-      obtain ⟨s', o⟩ := r
-      cases o with
-      | normal =>
-        obtain ⟨τ, st, hp, e1, e2, e3, e4, e5⟩ := ih'
-        exact ⟨τ, Steps.cons s1 st, by omega, e1, e2, e3, e4, SameStacks.trans ⟨rfl, rfl, rfl⟩ e5⟩
-      | error c q => exact ErrsWith.of_steps (Steps.one s1) ih'
-      | halted => trivial
-      | inexact => trivial
-      | outOfFuel => trivial
-    | semicolon =>
-      simp only [compileItems, compileItem] at hc
-      have h0 : code[σ.pc]? = some (CInstr.printSemicolon, p) := by rw [hpc]; exact hc.append_left.head
-      let σ1 : Vm := advance { σ with skipNewline := true }
-      have s1 : CoreVm.step code σ = .next σ1 := by simp only [CoreVm.step, h0]; rfl
-      have ih' := ih (off + 1) σ1 s hc.append_right (by simp [σ1, advance, hpc]) he ho hsl
-      simp only [printItems, sizeItems, flagAfter, isSep]
-      generalize hr : printItems s rest = r at ih' ⊢
-      obtain ⟨s', o⟩ := r
-      cases o with
-      | normal =>
-        obtain ⟨τ, st, hp, e1, e2, e3, e4, e5⟩ := ih'
-        exact ⟨τ, Steps.cons s1 st, by omega, e1, e2, e3, e4, SameStacks.trans ⟨rfl, rfl, rfl⟩ e5⟩
-      | error c q => exact ErrsWith.of_steps (Steps.one s1) ih'
-      | halted => trivial
-      | inexact => trivial
-      | outOfFuel => trivial
-    | expr e =>
-      simp only [compileItems, compileItem] at hc
-      obtain ⟨hse, hsr⟩ := hsl
-      have hce := compileExpr_correct code e off σ hc.append_left.append_left hpc (by rw [he]; exact hse)
-      have hpv : code[off + (compileExpr e).length]? = some (CInstr.printValue, e.pos) :=
-        hc.append_left.append_right.head
-      simp only [ExprSpec, he] at hce
-      simp only [printItems, sizeItems, flagAfter, isSep]
-      cases hev : eval s.env e with
-      | err c q => simp only [hev] at hce ⊢; rw [← ho]; exact hce
-      | inexact => trivial
-      | ok v =>
-        simp only [hev] at hce ⊢
-        obtain ⟨b, st⟩ := hce
-        cases hpr : printValue v with
-        | none => trivial
-        | some pv =>
-          simp only
-          let σ1 : Vm := afterExpr σ (off + (compileExpr e).length) v b
-          let σ2 : Vm := advance { σ1 with out := σ1.out.print (Print.valueText pv), skipNewline := false }
-          have s2 : CoreVm.step code σ1 = .next σ2 := by
-            simp only [CoreVm.step, σ1, afterExpr, hpv, hpr]; rfl
-          have hc' : CodeAt code (off + (compileExpr e).length + 1) (compileItems p rest) := by
-            have := hc.append_right
-            simpa [Nat.add_assoc] using this
-          have ih' := ih (off + (compileExpr e).length + 1) σ2
-            { s with out := s.out.print (Print.valueText pv) } hc'
-            (by simp [σ2, σ1, advance, afterExpr]) (by simp [σ2, σ1, advance, afterExpr, he])
-            (by simp [σ2, σ1, advance, afterExpr, ho]) hsr
-          generalize hr : printItems { s with out := s.out.print (Print.valueText pv) } rest = r at ih' ⊢
-          obtain ⟨s', o⟩ := r
-          cases o with
-          | normal =>
-            obtain ⟨τ, st', hp, e1, e2, e3, e4, e5⟩ := ih'
-            refine ⟨τ, st.trans (Steps.cons s2 st'), by omega, e1, e2, e3, e4, ?_⟩
-            exact SameStacks.trans ⟨rfl, rfl, rfl⟩ e5
-          | error c q => exact ErrsWith.of_steps (st.trans (Steps.one s2)) ih'
-          | halted => trivial
-          | inexact => trivial
-          | outOfFuel => trivial
-
-/-! #### the statement theorem -/
-
-/-- statements covered by the simulation theorem so far (IF, DO, SELECT CASE, FOR and DATA/READ are not,
-yet), with every variable slot below `n` and numeric loop conditions -/
-def Wf (n : Nat) : SStmt → Prop
-  | .skip => True
-  | .comment => True
-  | .seq a b => Wf n a ∧ Wf n b
-  | .dim x _ _ => x < n
-  | .assign x _ e _ => x < n ∧ SlotsBelow n e
-  | .print items _ => ItemsSlots n items
-  | .ifBlock _ _ _ _ _ _ => False
-  | .while c body _ => SlotsBelow n c ∧ NumericCond c ∧ Wf n body
-  | .doLoop _ _ _ _ _ => False
-  | .end_ _ => True
-  | .data _ _ => False
-  | .read _ _ => False
-  | .select _ _ _ _ _ => False
-  | .forLoop _ _ _ _ _ _ _ => False
-
-/-- the induction hypothesis of the statement theorem at a given amount of fuel -/
-def StmtIH (code : Code) (fuel : Nat) : Prop :=
-  ∀ (stmt : SStmt) (sfx : String) (off : Nat) (σ : Vm) (s : St),
-    CodeAt code off (compileStmt sfx off stmt) → σ.pc = off → Rel s σ → Wf s.env.length stmt →
-    StmtSpec code (sizeStmt stmt) off σ s (exec fuel (desugar stmt) s)
-
-theorem rel_of (s : St) (σ : Vm) (he : σ.env = s.env) (ho : σ.out = s.out) (hk : σ.skipNewline = false) :
-    Rel s σ := ⟨he, ho, hk⟩
-
-theorem case_assign (code : Code) (x : Nat) (t : Ty) (e : Ast.Expr) (p : Pos) (sfx : String) (off : Nat)
-    (σ : Vm) (s : St) (fuel : Nat)
-    (hc : CodeAt code off (compileStmt sfx off (.assign x t e p))) (hpc : σ.pc = off) (hr : Rel s σ)
-    (hw : Wf s.env.length (.assign x t e p)) :
-    StmtSpec code (sizeStmt (.assign x t e p)) off σ s (exec (fuel + 1) (desugar (.assign x t e p)) s) := by
-  simp only [compileStmt] at hc
-  obtain ⟨hx, hse⟩ := hw
-  have he := exprTo_correct code e t off σ hc.append_left hpc (by rw [hr.env]; exact hse)
-  simp only [desugar, exec, sizeStmt]
-  rw [hr.env] at he
-  cases hev : evalTo s.env e t with
-  | err c q =>
-    simp only [hev] at he
-    simp only [StmtSpec]
-    rw [← hr.out]; exact he
-  | inexact => simp [StmtSpec]
-  | ok v =>
-    simp only [hev] at he
-    obtain ⟨b, st⟩ := he
-    simp only [StmtSpec]
-    have hst := store_steps code x p (off + (compileExprTo e t).length)
-      (afterExpr σ (off + (compileExprTo e t).length) v b) hc.append_right rfl
-    refine ⟨_, st.trans hst, by simp; omega, ?_, ⟨rfl, rfl, rfl⟩, ?_⟩
-    · exact rel_of _ _ (by simp [afterExpr, St.set, hr.env]) (by simp [afterExpr, St.set, hr.out])
-        (by simp [afterExpr, hr.skip])
-    · simp [St.set]
-
-theorem case_dim (code : Code) (x : Nat) (t : Ty) (p : Pos) (sfx : String) (off : Nat)
-    (σ : Vm) (s : St) (fuel : Nat)
-    (hc : CodeAt code off (compileStmt sfx off (.dim x t p))) (hpc : σ.pc = off) (hr : Rel s σ) :
-    StmtSpec code (sizeStmt (.dim x t p)) off σ s (exec (fuel + 1) (desugar (.dim x t p)) s) := by
-  simp only [compileStmt] at hc
-  subst hpc
-  have h0 : code[σ.pc]? = some (CInstr.allocate t, p) := hc.head
-  have h1 : code[σ.pc + 1]? = some (CInstr.varPath x, p) := hc.tail.head
-  have h2 : code[σ.pc + 1 + 1]? = some (CInstr.copyAToVarPath, p) := hc.tail.tail.head
-  have hev : evalTo s.env (Ast.Expr.lit (Src.zeroOf t) p) t = .ok (Ref.zeroOf t) := by
-    simp only [evalTo, eval, ERes.bind, storeCast, Ast.Expr.ty, zeroOf_eq]
-    cases t <;> rfl
-  simp only [desugar, exec, hev, StmtSpec, sizeStmt]
-  let σ1 : Vm := advance (setA σ (Ref.zeroOf t))
-  let σ2 : Vm := advance { σ1 with paths := x :: σ1.paths }
-  let σ3 : Vm := advance { σ2 with env := σ2.env.set x σ2.regs.a, paths := σ.paths }
-  have s1 : CoreVm.step code σ = .next σ1 := by simp only [CoreVm.step, h0]; rfl
-  have s2 : CoreVm.step code σ1 = .next σ2 := by simp only [CoreVm.step, σ1, advance, setA, h1]; rfl
-  have s3 : CoreVm.step code σ2 = .next σ3 := by simp only [CoreVm.step, σ2, σ1, advance, setA, h2]; rfl
-  refine ⟨σ3, Steps.cons s1 (Steps.cons s2 (Steps.one s3)), rfl, ?_, ⟨rfl, rfl, rfl⟩, by simp [St.set]⟩
-  exact rel_of _ _ (by simp [σ3, σ2, σ1, advance, setA, St.set, hr.env]) (by simp [σ3, σ2, σ1, advance, setA, St.set, hr.out])
-    (by simp [σ3, σ2, σ1, advance, setA, hr.skip])
-
-theorem case_end (code : Code) (p : Pos) (sfx : String) (off : Nat) (σ : Vm) (s : St) (fuel : Nat)
-    (hc : CodeAt code off (compileStmt sfx off (.end_ p))) (hpc : σ.pc = off) (hr : Rel s σ) :
-    StmtSpec code (sizeStmt (.end_ p)) off σ s (exec (fuel + 1) (desugar (.end_ p)) s) := by
-  simp only [compileStmt] at hc
-  subst hpc
-  have h0 : code[σ.pc]? = some (CInstr.halt, p) := hc.head
-  simp only [desugar, exec, StmtSpec]
-  exact ⟨σ, σ, Steps.refl σ, by simp only [CoreVm.step, h0], hr⟩
-
-theorem printItems_outcome (items : List PrintItem) : ∀ (s : St),
-    (printItems s items).2 = .normal ∨ (∃ c q, (printItems s items).2 = .error c q) ∨
-      (printItems s items).2 = .inexact := by
-  induction items with
-  | nil => intro s; left; rfl
-  | cons it rest ih =>
-    intro s
-    cases it with
-    | comma => simp only [printItems]; exact ih _
-    | semicolon => simp only [printItems]; exact ih _
-    | expr e =>
-      simp only [printItems]
-      cases eval s.env e with
-      | err c q => right; left; exact ⟨c, q, rfl⟩
-      | inexact => right; right; rfl
-      | ok v =>
-        simp only
-        cases printValue v with
-        | none => right; right; rfl
-        | some pv => simp only; exact ih _
-
-theorem case_print (code : Code) (items : List PrintItem) (p : Pos) (sfx : String) (off : Nat)
-    (σ : Vm) (s : St) (fuel : Nat)
-    (hc : CodeAt code off (compileStmt sfx off (.print items p))) (hpc : σ.pc = off) (hr : Rel s σ)
-    (hw : Wf s.env.length (.print items p)) :
-    StmtSpec code (sizeStmt (.print items p)) off σ s (exec (fuel + 1) (desugar (.print items p)) s) := by
-  simp only [compileStmt] at hc
-  subst hpc
-  have h0 : code[σ.pc]? = some (CInstr.printSetPrinter, p) := hc.append_left.append_left.head
-  have h1 : code[σ.pc + 1]? = some (CInstr.loadA (.int 0), p) := hc.append_left.append_left.tail.head
-  have h2 : code[σ.pc + 1 + 1]? = some (CInstr.printSetFormat, p) := hc.append_left.append_left.tail.tail.head
-  let σ1 : Vm := advance σ
-  let σ2 : Vm := advance (setA σ1 (.int 0))
-  let σ3 : Vm := advance σ2
-  have s1 : CoreVm.step code σ = .next σ1 := by simp only [CoreVm.step, h0]; rfl
-  have s2 : CoreVm.step code σ1 = .next σ2 := by simp only [CoreVm.step, σ1, advance, h1]; rfl
-  have s3 : CoreVm.step code σ2 = .next σ3 := by simp only [CoreVm.step, σ2, σ1, advance, setA, h2]; rfl
-  have pre : Steps code σ σ3 := Steps.cons s1 (Steps.cons s2 (Steps.one s3))
-  have hci : CodeAt code (σ.pc + 3) (compileItems p items) := by
-    have := hc.append_left.append_right
-    simpa using this
-  have hit := items_correct code p items (σ.pc + 3) σ3 s hci rfl
-    (by simp [σ3, σ2, σ1, advance, setA, hr.env]) (by simp [σ3, σ2, σ1, advance, setA, hr.out]) hw
-  have hend : code[σ.pc + 3 + sizeItems items]? = some (CInstr.printEnd, p) := by
-    have := hc.append_right.head
-    simp only [List.length_append, List.length_cons, List.length_nil, len_items] at this
-    rw [show σ.pc + 3 + sizeItems items = σ.pc + (0 + 1 + 1 + 1 + sizeItems items) by omega]
-    exact this
-  have hout := printItems_outcome items s
-  simp only [desugar, exec, sizeStmt]
-  generalize hr' : printItems s items = r at hit ⊢
-  obtain ⟨s', o⟩ := r
-  cases o with
-  | normal =>
-    obtain ⟨τ, st, hp, e1, e2, e3, e4, e5⟩ := hit
-    have hflag : τ.skipNewline = endsInSeparator items ∨ (items = [] ∧ τ.skipNewline = false) := by
-      rw [e4, flagAfter_eq]
-      by_cases hi : items = []
-      · right; exact ⟨hi, by simp [hi, σ3, σ2, σ1, advance, setA, hr.skip]⟩
-      · left; simp [hi]
-    have hpe : code[τ.pc]? = some (CInstr.printEnd, p) := by rw [hp]; exact hend
-    by_cases hsep : endsInSeparator items = true
-    · have hk : τ.skipNewline = true := by
-        rcases hflag with h | ⟨h, _⟩
-        · rw [h, hsep]
-        · subst h; simp [endsInSeparator] at hsep
-      simp only [hsep, if_true, StmtSpec]
-      refine ⟨advance { τ with skipNewline := false }, (pre.trans st).trans (Steps.one ?_), ?_, ?_, ?_, ?_⟩
-      · simp only [CoreVm.step, hpe, hk, if_true]
-      · simp [advance, hp]; omega
-      · exact rel_of _ _ (by simp [advance, e1]) (by simp [advance, e2]) (by simp [advance])
-      · exact SameStacks.trans (SameStacks.trans ⟨rfl, rfl, rfl⟩ e5) ⟨rfl, rfl, rfl⟩
-      · rw [e3]
-    · have hk : τ.skipNewline = false := by
-        rcases hflag with h | ⟨_, h⟩
-        · rw [h]; simpa using hsep
-        · exact h
-      simp only [hsep, StmtSpec]
-      refine ⟨advance { τ with out := τ.out.println }, (pre.trans st).trans (Steps.one ?_), ?_, ?_, ?_, ?_⟩
-      · simp only [CoreVm.step, hpe, hk]; rfl
-      · simp [advance, hp]; omega
-      · exact rel_of _ _ (by simp [advance, e1]) (by simp [advance, e2]) (by simp [advance, hk])
-      · exact SameStacks.trans (SameStacks.trans ⟨rfl, rfl, rfl⟩ e5) ⟨rfl, rfl, rfl⟩
-      · simp [e3]
-  | error c q =>
-    simp only [StmtSpec]
-    exact ErrsWith.of_steps pre hit
-  | halted => rw [hr'] at hout; simp at hout
-  | inexact => simp [StmtSpec]
-  | outOfFuel => rw [hr'] at hout; simp at hout
-
-theorem evalCond_error_kind {env : List Val} {c : Ast.Expr} {o : Outcome} (h : evalCond env c = .error o) :
-    (∃ cd q, o = .error cd q) ∨ o = .inexact := by
-  unfold evalCond at h
-  cases he : eval env c with
-  | err cd q => simp [he] at h; exact .inl ⟨cd, q, h.symm⟩
-  | inexact => simp [he] at h; exact .inr h.symm
-  | ok v =>
-    simp only [he] at h
-    cases ht : truthy v with
-    | some b => simp [ht] at h
-    | none => simp [ht] at h; exact .inl ⟨13, c.pos, h.symm⟩
-
-theorem case_seq (code : Code) (fuel : Nat) (ih : StmtIH code fuel) (a b : SStmt) (sfx : String) (off : Nat)
-    (σ : Vm) (s : St)
-    (hc : CodeAt code off (compileStmt sfx off (.seq a b))) (hpc : σ.pc = off) (hr : Rel s σ)
-    (hw : Wf s.env.length (.seq a b)) :
-    StmtSpec code (sizeStmt (.seq a b)) off σ s (exec (fuel + 1) (desugar (.seq a b)) s) := by
-  simp only [compileStmt] at hc
-  obtain ⟨hwa, hwb⟩ := hw
-  have ha := ih a sfx off σ s hc.append_left hpc hr hwa
-  simp only [desugar, exec, sizeStmt]
-  generalize hra : exec fuel (desugar a) s = ra at ha ⊢
-  obtain ⟨s1, o1⟩ := ra
-  cases o1 with
-  | normal =>
-    simp only [StmtSpec] at ha
-    obtain ⟨τ, st, hp, hrel, hss, hlen⟩ := ha
-    have hcb : CodeAt code (off + sizeStmt a) (compileStmt sfx (off + sizeStmt a) b) := by
-      have := hc.append_right
-      rwa [len_stmt] at this
-    have hb := ih b sfx (off + sizeStmt a) τ s1 hcb hp hrel (by rw [hlen]; exact hwb)
-    simp only
-    generalize hrb : exec fuel (desugar b) s1 = rb at hb ⊢
-    obtain ⟨s2, o2⟩ := rb
-    cases o2 with
-    | normal =>
-      simp only [StmtSpec] at hb ⊢
-      obtain ⟨υ, st2, hp2, hrel2, hss2, hlen2⟩ := hb
-      exact ⟨υ, st.trans st2, by omega, hrel2, hss.trans hss2, by omega⟩
-    | halted =>
-      simp only [StmtSpec] at hb ⊢
-      obtain ⟨υ, ω, st2, hh, hrel2⟩ := hb
-      exact ⟨υ, ω, st.trans st2, hh, hrel2⟩
-    | error c q =>
-      simp only [StmtSpec] at hb ⊢
-      exact ErrsWith.of_steps st hb
-    | inexact => simp [StmtSpec]
-    | outOfFuel => simp [StmtSpec]
-  | halted => simpa [StmtSpec] using ha
-  | error c q => simpa [StmtSpec] using ha
-  | inexact => simp [StmtSpec]
-  | outOfFuel => simp [StmtSpec]
-
-/-- a loop whose test is at the top: `WHILE c … WEND`, `DO WHILE c … LOOP`, `DO UNTIL c … LOOP` share one
-shape up to the optional `NotA`; this is WHILE -/
-theorem case_while (code : Code) (fuel : Nat) (ih : StmtIH code fuel) (c : Ast.Expr) (body : SStmt) (p : Pos)
-    (sfx : String) (off : Nat) (σ : Vm) (s : St)
-    (hc : CodeAt code off (compileStmt sfx off (.while c body p))) (hpc : σ.pc = off) (hr : Rel s σ)
-    (hw : Wf s.env.length (.while c body p)) :
-    StmtSpec code (sizeStmt (.while c body p)) off σ s (exec (fuel + 1) (desugar (.while c body p)) s) := by
-  have hcw := hc
-  simp only [compileStmt] at hc
-  obtain ⟨hsc, hnc, hwb⟩ := hw
-  subst hpc
-  have hlab : code[σ.pc]? = some (CInstr.label (labelName "while" p sfx), p) :=
-    hc.append_left.append_left.append_left.append_left.head
-  let σ1 : Vm := advance σ
-  have s1 : CoreVm.step code σ = .next σ1 := by simp only [CoreVm.step, hlab]; rfl
-  have hcc : CodeAt code (σ.pc + 1)
-      (compileExpr c ++ [(CInstr.jumpIfFalse (σ.pc + 1 + (compileExpr c).length + 1 + sizeStmt body + 1), p)]) := by
-    have h1 := hc.append_left.append_left.append_left.append_right
-    have h2 := hc.append_left.append_left.append_right
-    simp only [List.length_append, List.length_singleton] at h1 h2
-    intro i hi
-    simp only [List.length_append, List.length_singleton] at hi
-    by_cases h3 : i < (compileExpr c).length
-    · rw [List.getElem?_append_left h3, ← h1 i h3]
-    · have hi' : i = (compileExpr c).length := by omega
-      subst hi'
-      rw [List.getElem?_append_right (by omega)]
-      have := h2 0 (by simp)
-      simp only [Nat.sub_self]
-      rw [← this]; congr 1; omega
-  have hcond := cond_correct code c _ p (σ.pc + 1) σ1 hcc rfl (by simp [σ1, advance, hr.env]; exact hsc) hnc
-  have henv1 : σ1.env = s.env := by simp [σ1, advance, hr.env]
-  rw [henv1] at hcond
-  simp only [desugar, exec, sizeStmt]
-  cases hec : evalCond s.env c with
-  | error o =>
-    simp only [hec] at hcond
-    cases o with
-    | error cd q =>
-      simp only [StmtSpec]
-      have := ErrsWith.of_steps (Steps.one s1) hcond
-      simpa [σ1, advance, hr.env, hr.out] using this
-    | normal => rcases evalCond_error_kind hec with ⟨_, _, h⟩ | h <;> cases h
-    | halted => rcases evalCond_error_kind hec with ⟨_, _, h⟩ | h <;> cases h
-    | inexact => simp [StmtSpec]
-    | outOfFuel => rcases evalCond_error_kind hec with ⟨_, _, h⟩ | h <;> cases h
-  | ok bv =>
-    simp only [hec] at hcond
-    cases bv with
-    | false =>
-      obtain ⟨v, b, st⟩ := hcond
-      simp only [StmtSpec]
-      -- lands on the `wend` label, one more step
-      have hwend : code[σ.pc + 1 + (compileExpr c).length + 1 + sizeStmt body + 1]? =
-          some (CInstr.label (labelName "wend" p sfx), p) := by
-        have := hc.append_right.tail.head
-        simp only [List.length_append, List.length_singleton, len_stmt] at this
-        rw [← this]; congr 1; omega
-      let τ0 : Vm := afterExpr σ1 (σ.pc + 1 + (compileExpr c).length + 1 + sizeStmt body + 1) v b
-      have s2 : CoreVm.step code τ0 = .next (advance τ0) := by
-        simp only [CoreVm.step, τ0, afterExpr, hwend]
-      refine ⟨advance τ0, (Steps.cons s1 st).trans (Steps.one s2), (by simp [τ0, advance, afterExpr] <;> try omega), ?_,
-        ⟨rfl, rfl, rfl⟩, (by simp)⟩
-      exact rel_of _ _ (by simp [τ0, σ1, advance, afterExpr, hr.env]) (by simp [τ0, σ1, advance, afterExpr, hr.out])
-        (by simp [τ0, σ1, advance, afterExpr, hr.skip])
-    | true =>
-      obtain ⟨v, b, st⟩ := hcond
-      let τ0 : Vm := afterExpr σ1 (σ.pc + 1 + (compileExpr c).length + 1) v b
-      have hrel0 : Rel s τ0 :=
-        rel_of _ _ (by simp [τ0, σ1, advance, afterExpr, hr.env]) (by simp [τ0, σ1, advance, afterExpr, hr.out])
-          (by simp [τ0, σ1, advance, afterExpr, hr.skip])
-      have hcb : CodeAt code (σ.pc + 1 + (compileExpr c).length + 1)
-          (compileStmt sfx (σ.pc + 1 + (compileExpr c).length + 1) body) := by
-        have := hc.append_left.append_right
-        simp only [List.length_append, List.length_singleton] at this
-        have e : σ.pc + (0 + 1 + (compileExpr c).length + 1) = σ.pc + 1 + (compileExpr c).length + 1 := by omega
-        rw [e] at this
-        exact this
-      have hb := ih body sfx _ τ0 s hcb rfl hrel0 hwb
-      simp only
-      generalize hrb : exec fuel (desugar body) s = rb at hb ⊢
-      obtain ⟨s1', o1⟩ := rb
-      cases o1 with
-      | normal =>
-        simp only [StmtSpec] at hb
-        obtain ⟨υ, st2, hp2, hrel2, hss2, hlen2⟩ := hb
-        -- jump back to the loop head
-        have hjmp : code[υ.pc]? = some (CInstr.jump σ.pc, p) := by
-          rw [hp2]
-          have := hc.append_right.head
-          simp only [List.length_append, List.length_singleton, len_stmt] at this
-          rw [← this]; congr 1; omega
-        let υ1 : Vm := { υ with pc := σ.pc }
-        have s3 : CoreVm.step code υ = .next υ1 := by simp only [CoreVm.step, hjmp]; rfl
-        have hloop := ih (.while c body p) sfx σ.pc υ1 s1' hcw rfl
-          (rel_of _ _ hrel2.env hrel2.out hrel2.skip) (by rw [hlen2]; exact ⟨hsc, hnc, hwb⟩)
-        simp only [desugar, sizeStmt] at hloop
-        simp only
-        generalize hrl : exec fuel (Stmt.while c (desugar body) p) s1' = rl at hloop ⊢
-        obtain ⟨s2', o2⟩ := rl
-        have pre : Steps code σ υ1 := ((Steps.cons s1 st).trans st2).trans (Steps.one s3)
-        cases o2 with
-        | normal =>
-          simp only [StmtSpec] at hloop ⊢
-          obtain ⟨ω, st4, hp4, hrel4, hss4, hlen4⟩ := hloop
-          exact ⟨ω, pre.trans st4, hp4, hrel4, (SameStacks.trans (SameStacks.trans ⟨rfl, rfl, rfl⟩ hss2) ⟨rfl, rfl, rfl⟩).trans hss4,
-            by omega⟩
-        | halted =>
-          simp only [StmtSpec] at hloop ⊢
-          obtain ⟨ω, ω', st4, hh, hrel4⟩ := hloop
-          exact ⟨ω, ω', pre.trans st4, hh, hrel4⟩
-        | error cd q =>
-          simp only [StmtSpec] at hloop ⊢
-          exact ErrsWith.of_steps pre hloop
-        | inexact => simp [StmtSpec]
-        | outOfFuel => simp [StmtSpec]
-      | halted =>
-        simp only [StmtSpec] at hb ⊢
-        obtain ⟨υ, ω, st2, hh, hrel2⟩ := hb
-        exact ⟨υ, ω, (Steps.cons s1 st).trans st2, hh, hrel2⟩
-      | error cd q =>
-        simp only [StmtSpec] at hb ⊢
-        exact ErrsWith.of_steps (Steps.cons s1 st) hb
-      | inexact => simp [StmtSpec]
-      | outOfFuel => simp [StmtSpec]
-
-/-- **`compileStmt_correct`** (covered constructs: sequencing, comments, DIM, assignment with conversion, PRINT,
-WHILE, END): for every amount of fuel, the code of a statement placed anywhere in a program, started in a VM
-state that represents reference state `s`, does what `Ref.exec` prescribes for the statement — it reaches the
-end of the statement's code in a state representing the prescribed final state, with all stacks restored
-(normal end); or it halts in such a state (END); or it stops with the prescribed error code and position,
-variables and output as prescribed at that point. -/
-theorem compileStmt_correct (code : Code) : ∀ fuel, StmtIH code fuel := by
+theorem stmtIHle_all (code : Code) : ∀ fuel, StmtIHle code fuel := by
   intro fuel
   induction fuel with
   | zero =>
-    intro stmt sfx off σ s _ _ _ _
-    simp [exec, StmtSpec]
-  | succ fuel ih =>
-    intro stmt sfx off σ s hc hpc hr hw
-    cases stmt with
-    | skip =>
-      simp only [desugar, exec, StmtSpec, sizeStmt]
-      exact ⟨σ, Steps.refl σ, by simpa using hpc, hr, SameStacks.refl σ, trivial⟩
-    | comment =>
-      simp only [desugar, exec, StmtSpec, sizeStmt]
-      exact ⟨σ, Steps.refl σ, by simpa using hpc, hr, SameStacks.refl σ, trivial⟩
-    | seq a b => exact case_seq code fuel ih a b sfx off σ s hc hpc hr hw
-    | dim x t p => exact case_dim code x t p sfx off σ s fuel hc hpc hr
-    | assign x t e p => exact case_assign code x t e p sfx off σ s fuel hc hpc hr hw
-    | print items p => exact case_print code items p sfx off σ s fuel hc hpc hr hw
-    | «while» c body p => exact case_while code fuel ih c body p sfx off σ s hc hpc hr hw
-    | end_ p => exact case_end code p sfx off σ s fuel hc hpc hr
-    | data _ _ => exact hw.elim
-    | read _ _ => exact hw.elim
-    | ifBlock _ _ _ _ _ _ => exact hw.elim
-    | select _ _ _ _ _ => exact hw.elim
-    | forLoop _ _ _ _ _ _ _ => exact hw.elim
-    | doLoop _ _ _ _ _ => exact hw.elim
+    intro f hf
+    have : f = 0 := by omega
+    subst this
+    exact stmtIH_zero code
+  | succ n ih =>
+    intro f hf
+    by_cases h : f ≤ n
+    · exact ih f h
+    · have : f = n + 1 := by omega
+      subst this
+      exact stmtIH_succ code n ih
 
-/-- comparisons, AND, OR and NOT of integers produce numbers: the usual conditions are `NumericCond` -/
-theorem numericCond_of_rel (op : Op) (l r : Ast.Expr) (t : Ty) (p : Pos)
-    (hop : op = .less ∨ op = .lessOrEqual ∨ op = .equal ∨ op = .greaterOrEqual ∨ op = .greater ∨ op = .notEqual) :
-    NumericCond (.bin op l r t p) := by
-  intro env v hv
-  simp only [eval] at hv
-  cases hl : eval env l with
-  | err c q => simp [hl, ERes.bind] at hv
-  | inexact => simp [hl, ERes.bind] at hv
-  | ok a =>
-    cases hr : eval env r with
-    | err c q => simp [hl, hr, ERes.bind] at hv
-    | inexact => simp [hl, hr, ERes.bind] at hv
-    | ok b =>
-      simp only [hl, hr, ERes.bind] at hv
-      have hb : binStep op t a b = (tryCmp a b).bind fun o' => Res.ok (ofBool (relHolds op o')) := by
-        rcases hop with h | h | h | h | h | h <;> subst h <;> rfl
-      rw [hb] at hv
-      cases ht : tryCmp a b with
-      | ok o =>
-        simp only [ht, Res.bind, lift] at hv
-        injection hv with hv
-        subst hv
-        simp only [ofBool]
-        split <;> rfl
-      | err e => simp [ht, Res.bind, lift] at hv
-      | inexact => simp [ht, Res.bind, lift] at hv
+/-- **`compileStmt_correct`** — every statement of the core language (sequencing, comments, DIM, assignment with
+conversion, PRINT, READ, IF / ELSEIF / ELSE, SELECT CASE with simple / IS / range items, FOR with and without STEP,
+WHILE, the four DO forms, END): for every amount of fuel, the code of a well-formed statement placed anywhere in a
+program and started in a VM state that represents reference state `s` does what `Ref.exec` prescribes — it reaches the
+end of the statement's code in a state representing the prescribed final state, with value stack, var-path stack and
+register stack restored (normal end); or it halts in such a state (END); or it stops with the prescribed error code
+at the prescribed position with the prescribed output.  No bound on program size, nesting depth or run length. -/
+theorem compileStmt_correct (code : Code) : ∀ fuel, StmtIH code fuel :=
+  fun fuel => stmtIHle_all code fuel fuel (Nat.le_refl _)
+
+/-- **`C01_core_correct`** — whole programs: for every core program whose statements are well formed (`WfTop`:
+what the checker establishes — names resolved to typed slots, numeric conditions — plus DATA only at top level) and
+every amount of fuel, if the reference semantics `Ref.run` ends normally or with END, the VM model running the code
+the generator model emits (`Core.compile`) from the initial state reaches a `Halt` with the same variables and the same
+output; if it ends with BASIC error `c` at position `p`, the VM stops with error `c` at `p` with the same output. -/
+theorem C01_core_correct (prog : SProgram) (fuel : Nat) (hw : WfTop prog.slots prog.body) :
+    match Ref.run fuel prog.toAst with
+    | (s', .normal) => ∃ τ υ, Steps (compile prog) (Vm.init prog.slots) τ ∧
+        CoreVm.step (compile prog) τ = .halt υ ∧ υ.env = s'.env ∧ υ.out = s'.out
+    | (s', .halted) => ∃ τ υ, Steps (compile prog) (Vm.init prog.slots) τ ∧
+        CoreVm.step (compile prog) τ = .halt υ ∧ υ.env = s'.env ∧ υ.out = s'.out
+    | (s', .error c p) => ∃ τ υ, Steps (compile prog) (Vm.init prog.slots) τ ∧
+        CoreVm.step (compile prog) τ = .error c p υ ∧ υ.out = s'.out
+    | (_, .inexact) => True
+    | (_, .outOfFuel) => True :=
+  compile_correct prog fuel hw compileStmt_correct
+
+/-- `Steps` is what `CoreVm.run` does: a run that takes the steps and then halts is a halted run of the bounded
+interpreter the correspondence check executes, for every sufficient amount of fuel -/
+theorem run_of_steps (code : Code) {σ τ υ : Vm} (h : Steps code σ τ) (hh : CoreVm.step code τ = .halt υ) :
+    ∃ n, ∀ m, n ≤ m → ∃ ω, CoreVm.run code m σ = .halted ω ∧ ω = υ := by
+  induction h with
+  | refl σ =>
+    refine ⟨1, fun m hm => ?_⟩
+    obtain ⟨k, rfl⟩ : ∃ k, m = k + 1 := ⟨m - 1, by omega⟩
+    exact ⟨υ, by simp [CoreVm.run, hh], rfl⟩
+  | cons hs _ ih =>
+    obtain ⟨n, hn⟩ := ih hh
+    refine ⟨n + 1, fun m hm => ?_⟩
+    obtain ⟨k, rfl⟩ : ∃ k, m = k + 1 := ⟨m - 1, by omega⟩
+    obtain ⟨ω, h1, h2⟩ := hn k (by omega)
+    exact ⟨ω, by simp [CoreVm.run, hs, h1], h2⟩
 
 /-! #### non-vacuity: a concrete program in the covered fragment, its code and its run -/
 
@@ -1030,9 +116,15 @@ private def demoProg : SStmt :=
             (.seq (.assign 0 .int (.bin .plus (.var 0 .int ⟨4, 5⟩) (.lit (.int 1) ⟨4, 9⟩) .int ⟨4, 7⟩) ⟨4, 1⟩) .skip)) ⟨2, 1⟩)
     .skip)
 
-example : Wf 1 demoProg := by
-  refine ⟨⟨Nat.zero_lt_one, trivial⟩, ⟨⟨Nat.zero_lt_one, trivial⟩, ?_, ?_⟩, trivial⟩
+example : Wf [.int] demoProg := by
+  refine ⟨⟨rfl, trivial, trivial⟩, ⟨⟨Nat.zero_lt_one, trivial⟩, ?_, ?_⟩, trivial⟩
   · exact numericCond_of_rel _ _ _ _ _ (.inl rfl)
-  · exact ⟨⟨Nat.zero_lt_one, trivial⟩, ⟨Nat.zero_lt_one, Nat.zero_lt_one, trivial⟩, trivial⟩
+  · exact ⟨⟨Nat.zero_lt_one, trivial⟩, ⟨rfl, ⟨Nat.zero_lt_one, trivial⟩, rfl, trivial, .inr rfl⟩, trivial⟩
+
+/-- the premise of `C01_core_correct` is satisfiable: the demo program is a well-formed core program -/
+example : WfTop [.int] demoProg := by
+  refine ⟨⟨rfl, trivial, trivial⟩, ⟨⟨Nat.zero_lt_one, trivial⟩, ?_, ?_⟩, trivial⟩
+  · exact numericCond_of_rel _ _ _ _ _ (.inl rfl)
+  · exact ⟨⟨Nat.zero_lt_one, trivial⟩, ⟨rfl, ⟨Nat.zero_lt_one, trivial⟩, rfl, trivial, .inr rfl⟩, trivial⟩
 
 end RbThm.C01Sim
